@@ -22,45 +22,59 @@ from .sym import (And_, Arr, C, F, Implies_, Lazy, Not_, Or_, Seq, is_int, is_py
 class QFact:
     """forall m in prod(range(extents)): body(m)   (m a tuple; body returns a z3 Bool / Python bool)"""
 
-    def __init__(self, extents, body, label=""):
+    def __init__(self, extents, body, label="", dom=None):
         self.extents = tuple(extents)
         self.body = body
         self.label = label
+        self.dom = dom          # optional domain tag: a fact is instantiated at a ground term of another tag never
 
 
-def add_qfact(extents, body, label=""):
+def add_qfact(extents, body, label="", dom=None):
     c = cur()
     if not isinstance(extents, (tuple, list)):
         extents = (extents,)
         body1 = body
         body = lambda m, body1=body1: body1(m[0])   # noqa: E731
-    q = QFact(extents, body, label)
+    q = QFact(extents, body, label, dom)
     c.qfacts.append(q)
+    doms = c.memo.setdefault("ground_doms", {})
     for g in list(c.grounds):
-        _inst(q, g)
+        gd = doms.get(tuple(zi(x).sexpr() for x in g))
+        if dom is None or gd is None or gd == dom:
+            _inst(q, g)
     return q
 
 
-def ground(*m):
+def ground(*m, dom=None):
     """Register an index term (tuple for structured axes); all quantified facts of that arity
     (existing and future) are instantiated at it."""
     c = cur()
     if len(m) == 1 and isinstance(m[0], tuple):
         m = m[0]
     key = tuple(zi(x).sexpr() for x in m)
-    for g in c.grounds:
-        if len(g) == len(m) and tuple(zi(x).sexpr() for x in g) == key:
+    doms = c.memo.setdefault("ground_doms", {})
+    if key in doms:
+        old = doms[key]
+        if old is None or old == dom:
             return m[0] if len(m) == 1 else m
+        # known under another domain tag: instantiate what that tag left out, from now on untagged
+        doms[key] = None
+        for q in list(c.qfacts):
+            if q.dom is not None and q.dom != old:
+                _inst(q, tuple(m))
+        return m[0] if len(m) == 1 else m
     c.grounds.append(tuple(m))
+    doms[key] = dom
     for q in list(c.qfacts):
-        _inst(q, tuple(m))
+        if q.dom is None or dom is None or q.dom == dom:
+            _inst(q, tuple(m))
     if len(m) == 1 and not c.memo.get("grounding_shift"):
         # slice-offset heuristic: an index into a[lo:hi] corresponds to index + lo of a (and back)
         c.memo["grounding_shift"] = True
         try:
             for off in list(c.memo.get("offsets", [])):
-                ground(simp(zi(m[0]) + zi(off)))
-                ground(simp(zi(m[0]) - zi(off)))
+                ground(simp(zi(m[0]) + zi(off)), dom=dom)
+                ground(simp(zi(m[0]) - zi(off)), dom=dom)
         finally:
             c.memo["grounding_shift"] = False
     return m[0] if len(m) == 1 else m
@@ -431,7 +445,18 @@ def full(shape, value, dtype=None):
 
 def zeros(shape, dtype=None): return full(shape, 0.0 if _dtype_kind(dtype) != "int" else 0, dtype or "float")
 def ones(shape, dtype=None): return full(shape, 1.0, dtype or "float")
-def empty(shape, dtype=None): return full(shape, 0.0, dtype or "float")   # contents unspecified: callers overwrite
+def empty(shape, dtype=None):
+    """np.empty: contents unspecified - every cell is an uninterpreted value (possibly non-finite)"""
+    from . import spec as S
+    k = _dtype_kind(dtype, "float")
+    axes = _axes_from_shape(shape)
+    a = S.array("empty", k, shape=tuple(ax[0] for ax in axes))
+    a.fresh = True
+    a.meta["param"] = False
+    a.label = None
+    return a
+
+
 def zeros_like(a, dtype=None):
     a = asarray(a)
     k = _dtype_kind(dtype, a.kind)
@@ -440,7 +465,11 @@ def zeros_like(a, dtype=None):
     return r
 
 
-def empty_like(a, dtype=None): return zeros_like(a, dtype)
+def empty_like(a, dtype=None):
+    a = asarray(a)
+    if all(len(ax) == 1 for ax in a.axes):
+        return empty(tuple(ax[0] for ax in a.axes), dtype or a.kind)
+    return zeros_like(a, dtype)
 
 
 def eye(n, dtype=None):
@@ -1673,7 +1702,7 @@ def _argext(a, better, skip_nan, name, total=False):
         if skip_nan:
             allnan = decls[1](*free) if free else decls[1]
             c.fact(z3.Implies(z3.Not(allnan), zb(Not_(ak.nan))))
-            add_qfact(n, lambda m: Implies_(allnan, at(m).nan), "allnan")
+            add_qfact(n, lambda m: Implies_(allnan, at(m).nan), "allnan", dom="idx")
 
             def body(m):
                 am = at(m)
@@ -1687,8 +1716,8 @@ def _argext(a, better, skip_nan, name, total=False):
                 am = at(m)
                 return Implies_(And_(Not_(am.nan), Not_(ak.nan)),
                                 And_(Not_(better(am, ak)), Implies_(am.v == ak.v, zi(k) <= zi(m))))
-        add_qfact(n, body, name)
-        ground(k)
+        add_qfact(n, body, name, dom="idx")
+        ground(k, dom="idx")
         c.memo[key] = (allnan, k)
     allnan, k = c.memo[key]
     if total:
@@ -1763,8 +1792,8 @@ def any_(a, axis=None):
     b = c.fresh_bool("any")
     w = tuple(c.fresh_int("w") for _ in ax)
     c.fact(z3.Implies(b, z3.And(*[z3.And(x >= 0, x < zi(n)) for x, n in zip(w, ax)], zb(P(w)))))
-    add_qfact(ax, lambda m: Implies_(P(m), b), "any")
-    ground(*w)
+    add_qfact(ax, lambda m: Implies_(P(m), b), "any", dom="idx")
+    ground(*w, dom="idx")
     c.memo[key] = b
     return b
 
